@@ -27,6 +27,8 @@ ALPHABET = {
     "U2": lambda: B.DiameterAVP(code=60002, data=b"yy"),
     "P": lambda: ProxyStateAVP(b"abc"),                                       # needs padding
     "B": lambda: B.DiameterAVP(code=101, data=b"\x00\x00\x00\x01"),           # dictionary name with a BLANK in it
+    # opaque data that happens to CONTAIN the encoding of another alphabet member (A1/A2) and of R
+    "Q": lambda: ProxyStateAVP(OriginHostAVP("a").dump() + ResultCodeAVP(DIAMETER_SUCCESS).dump()),
 }
 
 
@@ -46,10 +48,15 @@ def coherent(m, expected):
             problems.append("name %s refers to an unlisted AVP" % k)
         if not m.has_avp(k):
             problems.append("has_avp(%r) is False for an existing name" % k)
+    done_ids = set()
     for x in listed:
+        if id(x) in done_ids:
+            continue
+        done_ids.add(id(x))
         n = sum(1 for v in names.values() if v is x)
-        if n != 1:
-            problems.append("listed AVP code %d has %d names" % (x.get_code(), n))
+        k = sum(1 for y in listed if y is x)          # the same object may legally be listed more than once
+        if n != k:
+            problems.append("AVP code %d is listed %d time(s) but has %d name(s)" % (x.get_code(), k, n))
     if m.has_avp("no_such_thing_avp"):
         problems.append("has_avp true for an absent name")
     if isinstance(m, B.DiameterMessage):
@@ -75,11 +82,23 @@ def ops_for(m, expected, pool):
             m.append(x)
             return exp + [x]
         out.append(("append(%s)" % a, do_append))
+    if expected:
+        # the SAME object appended once more (legal: it is then listed twice, under two names)
+        def do_append_again(m, exp):
+            m.append(exp[0])
+            return exp + [exp[0]]
+        out.append(("again()", do_append_again))
     for k in sorted(names_of(m)):
         def do_pop(m, exp, k=k):
             x = m.__dict__[k]
             m.pop(k)
-            return [y for y in exp if y is not x]
+            out_, dropped = [], False
+            for y in exp:                       # exactly ONE position leaves the reference container
+                if y is x and not dropped:
+                    dropped = True
+                else:
+                    out_.append(y)
+            return out_
         out.append(("pop(%s)" % k, do_pop))
     def do_cleanup(m, exp):
         m.cleanup()
@@ -150,7 +169,9 @@ def kf_suffix_reuse(label, m, expected):
     """append of an AVP whose generated key '<base>__<count>' already exists (a suffixed name was
     popped earlier, so the count points at a live key): the live entry is overwritten and its AVP
     stays listed without a name"""
-    if label.startswith("append("):
+    if label == "again()":
+        news = [expected[0]] if expected else []
+    elif label.startswith("append("):
         news = [ALPHABET[label[7:-1]]()]
     elif label.startswith("extend(") or label.startswith("avps=["):
         inner = label[label.index("(") + 1:-1] if label.startswith("extend(") else label[6:-1]
@@ -229,22 +250,22 @@ def name_map_coherence():
     return [("coherent-after-every-operation-sequence", not failures, detail)]
 
 
-@table("grouped-name-map-coherence", prop="C11")
+@table("grouped-name-map-coherence", prop="C11", also=("C01",))
 def grouped_name_map_coherence():
     """the same campaign on a Grouped AVP (Failed-AVP): GroupedType.append / extend / pop / cleanup / avps= /
     update_key keep names, member list and the Grouped data (== concatenated member encodings)
     coherent; the known pop-equal / suffix-reuse histories are the same code pattern and are skipped"""
-    depth = 3 if os.environ.get("VERIF_TIER") == "thorough" else 2
+    depth = 4 if os.environ.get("VERIF_TIER") == "thorough" else 3
     failures, known, nseq, nops = run_sequences(depth, make=_new_grouped)
     detail = {"depth": depth, "operations_checked": nops, "known_finding_histories_skipped": known,
               "failing": [{"history": h, "problems": p} for h, p in failures[:6]]}
     return [("grouped-coherent-after-every-operation-sequence", not failures, detail)]
 
 
-grouped_name_map_coherence.bounded = ("operation sequences of length <= 2 (quick) / 3 (thorough) on a Grouped AVP over the "
+grouped_name_map_coherence.bounded = ("operation sequences of length <= 3 (quick) / 4 (thorough) on a Grouped AVP over the "
                                       "8-AVP alphabet; native run-time evaluation of the representation invariant")
 
-name_map_coherence.bounded = ("operation sequences of length <= 3 (quick) / 4 (thorough) over an 8-AVP alphabet, "
+name_map_coherence.bounded = ("operation sequences of length <= 3 (quick) / 4 (thorough) over a 9-AVP alphabet, "
                               "on the real classes (native run-time evaluation of the representation invariant)")
 
 
